@@ -68,12 +68,16 @@ def fill(code, contract):
     return re.sub(r'[ \t]*/\*@LOOP(\d+)@\*/\n', lp, code)
 
 
-def assemble(db, root, contracts, replace=(), harness='', includes=('avm_base.h',), spec_includes=()):
+def assemble(db, root, contracts, replace=(), harness='', includes=('avm_base.h',), spec_includes=(), model_text=None):
     fns, globs, externs = closure(db, root, replace)
     F = db['functions']
     out = []
     for inc in includes:
         out.append('#include "%s"' % inc)
+    missing = []
+    if model_text is not None:
+        mt, missing = model_text([e for e in externs if e.startswith('_') or e.startswith('model_')])
+        out.append(mt)
     out.append(struct_text(db['structs']))
     for nm in db['structs']:
         out.append('%s nondet_%s(void);' % (nm, nm))
@@ -102,4 +106,4 @@ def assemble(db, root, contracts, replace=(), harness='', includes=('avm_base.h'
         out.append(fill(f['code'], contracts.get(cn) if cn == root else None))
     out.append('void avel_static_init(void) {\n' + ''.join('  %s\n' % d for d in dyn) + '}\n')
     out.append(harness)
-    return '\n'.join(out) + '\n', externs
+    return '\n'.join(out) + '\n', externs, missing
